@@ -1,2 +1,278 @@
-def conversion_structure(ctx):
-    pass
+"""Structural rules on small helper functions shared by several properties:
+CONV (the two view conversions, C04), ARGMIN (find_minimal_distance, C05/C06), INTERLEAVE (per-channel pairings merged
+by onset, C01/C17)."""
+from __future__ import annotations
+
+import ast
+
+from ..astutil import attr_chain, call_method, enum_member, kwarg, short, src, ancestors
+from ..linear import Normaliser, Sym
+from ..model import walk_local, AnalysisError
+from ..report import Ctx
+from .typecase import TypeCase, events_matching
+
+
+def _loop_over_messages(fn: ast.FunctionDef) -> ast.For | None:
+    for n in fn.body:
+        if isinstance(n, ast.For) and isinstance(n.target, ast.Name) and attr_chain(n.iter) == ["self", "_messages"]:
+            return n
+    return None
+
+
+def conversion_structure(ctx: Ctx) -> None:
+    p = ctx.p
+    # ------------------------------------------------------------------ absolute -> relative
+    q = "AbsoluteSequence.to_relative_sequence"
+    fi = p.func(q)
+    ctx.analysed(fi)
+    loop = _loop_over_messages(fi.node)
+    if loop is None:
+        raise AnalysisError(f"{q}: message loop not found")
+    m = loop.target.id
+    res = next((r.value.id for r in walk_local(fi.node) if isinstance(r, ast.Return) and isinstance(r.value, ast.Name)), None)
+    for T in p.enum_order("MessageType"):
+        tc = TypeCase(p, fi, {m}, T)
+        exits = tc.run_body(loop.body)
+        copies = events_matching(exits, lambda e: e[0] == "append" and e[1] == res and e[2] in ("copy-of-msg", "other", "maybe-msg"))
+        raw = events_matching(exits, lambda e: e[0] == "append" and e[1] == res and e[2] == "msg")
+        kinds = {k for k, _ in exits}
+        want = (0, 0) if T == "INTERNAL" else (1, 1)
+        ctx.check(kinds == {"end"} and (copies or (0, 0)) == want and (raw or (0, 0)) == (0, 0), "CONV",
+                  f"{q}: {T} -> copied {copies} time(s)", function=q,
+                  construct=f"absolute to relative conversion does not carry a {T} event over exactly {'zero' if T == 'INTERNAL' else 'one'} time(s) as a copy",
+                  message=f"copies {copies}, raw appends {raw}, exits {sorted(kinds)}", file=fi.file, node=loop)
+    # wait insertion: WAIT(time - clock) under `time > clock`, then clock = time
+    clock = None
+    for s in fi.node.body:
+        if isinstance(s, ast.Assign) and isinstance(s.targets[0], ast.Name) and isinstance(s.value, ast.Constant) and s.value.value == 0:
+            clock = s.targets[0].id
+    waits = [c for c in ast.walk(loop) if isinstance(c, ast.Call) and isinstance(c.func, ast.Name) and c.func.id == "Message"
+             and enum_member(kwarg(c, "message_type"), "MessageType") == "WAIT"]
+    ctx.check(len(waits) == 1 and clock is not None, "CONV", f"{q}: one wait insertion site", function=q, construct="wait insertion missing or duplicated in the absolute to relative conversion",
+              message=f"{len(waits)} site(s)", file=fi.file, node=loop)
+    if len(waits) == 1 and clock is not None:
+        w = waits[0]
+        nz = Normaliser()
+        nz.run_block([s for s in loop.body if isinstance(s, ast.Assign) and s.lineno < w.lineno])
+        got = nz.norm(kwarg(w, "time"))
+        want = Sym.atom(f"{m}.time") - Sym.atom(clock)
+        ctx.check(got == want, "CONV", f"{q}: inserted wait = event time - clock", function=q,
+                  construct="inserted wait is not the event time minus the running clock", message=got.canon(), file=fi.file, node=w)
+        g = next((a for a in ancestors(w) if isinstance(a, ast.If)), None)
+        ok = False
+        if g is not None and isinstance(g.test, ast.Compare) and len(g.test.ops) == 1:
+            l, r = nz.norm(g.test.left), nz.norm(g.test.comparators[0])
+            ok = (isinstance(g.test.ops[0], ast.Gt) and l == Sym.atom(f"{m}.time") and r == Sym.atom(clock)) or \
+                 (isinstance(g.test.ops[0], ast.Lt) and r == Sym.atom(f"{m}.time") and l == Sym.atom(clock))
+        ctx.check(ok, "CONV", f"{q}: a wait is inserted exactly when the event lies after the clock", function=q,
+                  construct="wait insertion guard is not `event time > clock`", message=short(getattr(g, "test", None)), file=fi.file, node=w)
+        ups = [s for s in (g.body if g is not None else []) if isinstance(s, ast.Assign) and isinstance(s.targets[0], ast.Name) and s.targets[0].id == clock]
+        ctx.check(len(ups) == 1 and nz.norm(ups[0].value) == Sym.atom(f"{m}.time"), "CONV", f"{q}: the clock advances to the event time", function=q,
+                  construct="running clock not advanced to the event time after inserting a wait", message=f"{[short(u) for u in ups]}", file=fi.file, node=w)
+        all_ups = [s for s in ast.walk(loop) if isinstance(s, (ast.Assign, ast.AugAssign)) and
+                   any(isinstance(t, ast.Name) and t.id == clock for t in (s.targets if isinstance(s, ast.Assign) else [s.target]))]
+        ctx.check(len(all_ups) == 1, "CONV", f"{q}: the clock changes only there", function=q, construct="running clock updated elsewhere in the conversion", message="",
+                  file=fi.file, node=loop)
+    # copied events lose their absolute time
+    tnone = [s for s in ast.walk(loop) if isinstance(s, ast.Assign) and isinstance(s.targets[0], ast.Attribute) and s.targets[0].attr == "time"
+             and isinstance(s.value, ast.Constant) and s.value.value is None]
+    ctx.check(bool(tnone), "CONV", f"{q}: copied events carry no time of their own", function=q, construct="copied events keep their absolute time in the relative view",
+              message="", file=fi.file, node=loop)
+
+    # ------------------------------------------------------------------ relative -> absolute
+    q = "RelativeSequence.to_absolute_sequence"
+    fi = p.func(q)
+    ctx.analysed(fi)
+    loop = _loop_over_messages(fi.node)
+    if loop is None:
+        raise AnalysisError(f"{q}: message loop not found")
+    m = loop.target.id
+    res = next((r.value.id for r in walk_local(fi.node) if isinstance(r, ast.Return) and isinstance(r.value, ast.Name)), None)
+    clock = None
+    for n in ast.walk(loop):
+        if isinstance(n, ast.AugAssign) and isinstance(n.target, ast.Name) and src(n.value) == f"{m}.time" and isinstance(n.op, ast.Add):
+            clock = n.target.id
+    if clock is None:
+        ctx.violation("CONV", f"{q}: clock accumulation", function=q, construct="relative to absolute conversion does not accumulate wait times",
+                      message="no `clock += msg.time`", file=fi.file, node=loop)
+        return
+    flag = None
+    for s in fi.node.body:
+        if isinstance(s, ast.Assign) and isinstance(s.targets[0], ast.Name) and isinstance(s.value, ast.Constant) and isinstance(s.value.value, bool):
+            flag = s.targets[0].id
+            flag_init = s.value.value
+    for T in p.enum_order("MessageType"):
+        tc = TypeCase(p, fi, {m}, T)
+        exits = tc.run_body(loop.body)
+        acc = events_matching(exits, lambda e: e[0] == "aug" and e[1] == clock)
+        app = events_matching(exits, lambda e: e[0] == "append" and e[1] == res)
+        kinds = {k for k, _ in exits}
+        if T == "WAIT":
+            ok = (acc or (0, 0)) == (1, 1) and (app or (0, 0)) == (0, 0)
+        else:
+            ok = (acc or (0, 0)) == (0, 0) and (app or (0, 0)) == (1, 1)
+        ctx.check(ok and kinds == {"end"}, "CONV", f"{q}: {T}: clock += {acc}, events added {app}", function=q,
+                  construct=f"relative to absolute conversion mishandles {T} messages",
+                  message=f"clock accumulations {acc}, events added {app}, exits {sorted(kinds)} (a WAIT only advances the clock; every other message "
+                          f"is added exactly once)", file=fi.file, node=loop)
+    stores = [s for s in ast.walk(loop) if isinstance(s, ast.Assign) and isinstance(s.targets[0], ast.Attribute) and s.targets[0].attr == "time"]
+    ctx.check(len(stores) == 1 and isinstance(stores[0].value, ast.Name) and stores[0].value.id == clock, "CONV",
+              f"{q}: each event is stamped with the accumulated clock", function=q, construct="converted events are not stamped with the accumulated wait time",
+              message=f"{[short(s) for s in stores]}", file=fi.file, node=loop)
+    copied = [s for s in ast.walk(loop) if isinstance(s, ast.Assign) and isinstance(s.value, ast.Call) and call_method(s.value)[1] == "copy"
+              and isinstance(call_method(s.value)[0], ast.Name) and call_method(s.value)[0].id == m]
+    ctx.check(bool(copied), "CONV", f"{q}: events are copied, not moved", function=q, construct="relative to absolute conversion re-uses the message objects",
+              message="", file=fi.file, node=loop)
+    # trailing cap: added iff the sequence ends in a wait, at the final clock value
+    caps = [c for s in fi.node.body if s.lineno > loop.end_lineno for c in ast.walk(s) if isinstance(c, ast.Call) and isinstance(c.func, ast.Name)
+            and c.func.id == "Message" and enum_member(kwarg(c, "message_type"), "MessageType") == "INTERNAL"]
+    ctx.check(len(caps) == 1, "CONV", f"{q}: one trailing cap message", function=q, construct="trailing duration cap missing or duplicated", message=f"{len(caps)}",
+              file=fi.file, node=fi.node)
+    if len(caps) == 1 and flag is not None:
+        c = caps[0]
+        t = kwarg(c, "time")
+        inner = t.args[0] if isinstance(t, ast.Call) and isinstance(t.func, ast.Name) and t.func.id == "int" and t.args else t
+        ctx.check(isinstance(inner, ast.Name) and inner.id == clock, "CONV", f"{q}: the cap sits at the final clock value", function=q,
+                  construct="trailing cap not placed at the accumulated duration", message=short(t), file=fi.file, node=c)
+        g = next((a for a in ancestors(c) if isinstance(a, ast.If)), None)
+        guard_ok = g is not None and ((isinstance(g.test, ast.UnaryOp) and isinstance(g.test.op, ast.Not) and isinstance(g.test.operand, ast.Name)
+                                       and g.test.operand.id == flag) or (isinstance(g.test, ast.Name) and g.test.id == flag))
+        negated = g is not None and isinstance(g.test, ast.UnaryOp)
+        # flag semantics: value after a WAIT vs after any other message
+        after = {}
+        for T in ("WAIT", "NOTE_ON"):
+            tc = TypeCase(p, fi, {m}, T)
+            exits = tc.run_body(loop.body)
+            vals = set()
+            for k, st in exits:
+                for e, v in st.counts.items():
+                    if e[0] == "set" and e[1] == flag and v[1] >= 1:
+                        vals.add(e[2])
+            after[T] = vals
+        # the cap must be added exactly when the last message was a WAIT
+        wait_val = next(iter(after["WAIT"])) if len(after["WAIT"]) == 1 else None
+        other_val = next(iter(after["NOTE_ON"])) if len(after["NOTE_ON"]) == 1 else None
+        consistent = guard_ok and wait_val is not None and other_val is not None and wait_val != other_val and \
+            ((negated and wait_val == "False") or (not negated and wait_val == "True"))
+        ctx.check(consistent, "CONV", f"{q}: the cap is added exactly when the sequence ends in a wait", function=q,
+                  construct="trailing cap not tied to `the last message was a wait`",
+                  message=f"guard `{short(getattr(g, 'test', None))}`, flag after WAIT {sorted(after['WAIT'])}, after other {sorted(after['NOTE_ON'])}", file=fi.file, node=c)
+        ctx.check((flag_init is True and negated) or (flag_init is False and not negated), "CONV", f"{q}: an empty sequence gets no cap", function=q,
+                  construct="initial cap flag would add a cap to an empty sequence", message=f"initial {flag_init}", file=fi.file, node=fi.node)
+    # result is sorted before the cap is inserted
+    srt = [c for s in fi.node.body if s.lineno > loop.end_lineno for c in ast.walk(s) if isinstance(c, ast.Call) and call_method(c)[1] in ("normalise_absolute", "sort")]
+    ctx.check(bool(srt), "CONV", f"{q}: the converted list is put into canonical order", function=q, construct="converted absolute list is not sorted",
+              message="", file=fi.file, node=fi.node)
+
+
+# --------------------------------------------------------------------------------------------------------------------
+def argmin_rule(ctx: Ctx, rule: str = "ARGMIN") -> None:
+    """find_minimal_distance(element, collection) has the argmin shape: distance = abs(candidate - element), the best
+    distance and its index are updated together under `distance < best`, the index is returned."""
+    p = ctx.p
+    q = "find_minimal_distance"
+    fi = p.func(q)
+    ctx.analysed(fi)
+    el, coll = fi.params[0], fi.params[1]
+    loop = next((n for n in fi.node.body if isinstance(n, ast.For)), None)
+    if loop is None or not (isinstance(loop.iter, ast.Call) and isinstance(loop.iter.func, ast.Name) and loop.iter.func.id == "enumerate"
+                            and isinstance(loop.iter.args[0], ast.Name) and loop.iter.args[0].id == coll and isinstance(loop.target, ast.Tuple)):
+        ctx.undetermined(rule, f"{q}: argmin shape", "not an enumerate loop over the collection: not judged")
+        return
+    iv, cv = loop.target.elts[0].id, loop.target.elts[1].id
+    nz = Normaliser()
+    nz.run_block([s for s in loop.body if isinstance(s, ast.Assign)])
+    upd = next((s for s in loop.body if isinstance(s, ast.If)), None)
+    if upd is None or not (isinstance(upd.test, ast.Compare) and len(upd.test.ops) == 1):
+        ctx.undetermined(rule, f"{q}: argmin shape", "update test not recognised")
+        return
+    lhs = nz.norm(upd.test.left).canon()
+    dist_ok = lhs in (f"abs({cv} + -1*{el})", f"abs(-1*{cv} + {el})", f"abs({el} + -1*{cv})", f"abs(-1*{el} + {cv})")
+    ctx.check(dist_ok, rule, f"{q}: compares abs(candidate - element) ({lhs})", function=q, construct="distance is not abs(candidate - element)",
+              message=lhs, file=fi.file, node=upd)
+    best = upd.test.comparators[0].id if isinstance(upd.test.comparators[0], ast.Name) else None
+    ctx.check(isinstance(upd.test.ops[0], (ast.Lt, ast.LtE)) and best is not None, rule, f"{q}: a candidate wins when its distance is smaller", function=q,
+              construct="candidate selection does not test `distance < best`", message=short(upd.test), file=fi.file, node=upd)
+    assigns = {s.targets[0].id: s.value for s in upd.body if isinstance(s, ast.Assign) and isinstance(s.targets[0], ast.Name)}
+    idx = next((k for k, v in assigns.items() if isinstance(v, ast.Name) and v.id == iv), None)
+    ctx.check(best in assigns and nz.norm(assigns[best]).canon() == lhs and idx is not None, rule, f"{q}: best distance and index updated together", function=q,
+              construct="best distance and its index are not updated together", message=f"{sorted(assigns)}", file=fi.file, node=upd)
+    rets = [r for r in walk_local(fi.node) if isinstance(r, ast.Return)]
+    ctx.check(bool(rets) and all(isinstance(r.value, ast.Name) and r.value.id == idx for r in rets), rule, f"{q}: returns the index of the best candidate",
+              function=q, construct="does not return the index of the best candidate", message=f"{[short(r) for r in rets]}", file=fi.file, node=fi.node)
+    init = [s for s in fi.node.body if isinstance(s, ast.Assign) and isinstance(s.targets[0], ast.Name) and s.targets[0].id == best]
+    ctx.check(len(init) == 1 and src(init[0].value) in ("math.inf", "float('inf')", 'float("inf")'), rule, f"{q}: starts from an infinite best distance", function=q,
+              construct="initial best distance is finite", message=f"{[short(s) for s in init]}", file=fi.file, node=fi.node)
+    # early exit only for an exact hit
+    for r in [x for x in ast.walk(loop) if isinstance(x, ast.Return)]:
+        g = next((a for a in ancestors(r) if isinstance(a, ast.If) and a is not upd), None)
+        ok = g is not None and isinstance(g.test, ast.Compare) and isinstance(g.test.ops[0], ast.Eq) and isinstance(g.test.comparators[0], ast.Constant) \
+            and g.test.comparators[0].value == 0 and isinstance(g.test.left, ast.Name) and g.test.left.id == best
+        ctx.check(ok, rule, f"{q}: early return only on an exact hit", function=q, construct="early return under a condition other than distance == 0",
+                  message=short(getattr(g, "test", None)), file=fi.file, node=r)
+
+
+# --------------------------------------------------------------------------------------------------------------------
+def interleave_rule(ctx: Ctx, rule: str = "INTERLEAVE") -> None:
+    """get_interleaved_message_pairings: repeatedly takes the pairing with the smallest next onset among the channels'
+    cursors, appends (channel, pairing), advances exactly that cursor by one, until every cursor is exhausted."""
+    p = ctx.p
+    q = "AbsoluteSequence.get_interleaved_message_pairings"
+    fi = p.func(q)
+    ctx.analysed(fi)
+    loop = next((n for n in fi.node.body if isinstance(n, ast.While)), None)
+    if loop is None:
+        ctx.undetermined(rule, f"{q}: interleaving loop", "no while loop: idiom not recognised, not judged")
+        return
+    res = next((r.value.id for r in walk_local(fi.node) if isinstance(r, ast.Return) and isinstance(r.value, ast.Name)), None)
+    # choice of the channel: index(min(times))
+    choice = [s for s in loop.body if isinstance(s, ast.Assign) and isinstance(s.value, ast.Call) and call_method(s.value)[1] == "index"
+              and s.value.args and isinstance(s.value.args[0], ast.Call) and isinstance(s.value.args[0].func, ast.Name)]
+    ok = len(choice) == 1 and choice[0].value.args[0].func.id == "min" and src(choice[0].value.args[0].args[0]) == src(call_method(choice[0].value)[0])
+    ctx.check(ok, rule, f"{q}: the next pairing comes from the channel with the smallest next onset", function=q,
+              construct="interleaving does not pick the channel with the minimal next onset",
+              message=f"{[short(c) for c in choice]}", file=fi.file, node=choice[0] if choice else loop)
+    if not choice:
+        return
+    cidx = choice[0].targets[0].id
+    times_var = src(call_method(choice[0].value)[0])
+    # the candidate times: next onset of each channel, infinity when exhausted
+    tdef = [s for s in loop.body if isinstance(s, ast.Assign) and isinstance(s.targets[0], ast.Name) and s.targets[0].id == times_var]
+    ok = len(tdef) == 1 and isinstance(tdef[0].value, ast.ListComp) and isinstance(tdef[0].value.elt, ast.IfExp) and "inf" in src(tdef[0].value.elt.orelse) \
+        and isinstance(tdef[0].value.elt.test, ast.Compare) and isinstance(tdef[0].value.elt.test.ops[0], ast.Lt)
+    ctx.check(ok, rule, f"{q}: exhausted channels count as infinitely late", function=q, construct="exhausted channels are not excluded from the onset comparison",
+              message=f"{[short(s, 90) for s in tdef]}", file=fi.file, node=tdef[0] if tdef else loop)
+    # cursor advance: exactly the chosen one, by one
+    incs = [s for s in loop.body if isinstance(s, ast.AugAssign) and isinstance(s.target, ast.Subscript)]
+    ok = len(incs) == 1 and isinstance(incs[0].op, ast.Add) and isinstance(incs[0].value, ast.Constant) and incs[0].value.value == 1 \
+        and isinstance(incs[0].target.slice, ast.Name) and incs[0].target.slice.id == cidx
+    ctx.check(ok, rule, f"{q}: exactly the chosen channel's cursor advances by one", function=q, construct="cursor of the chosen channel not advanced by exactly one",
+              message=f"{[short(s) for s in incs]}", file=fi.file, node=incs[0] if incs else loop)
+    cursor = src(incs[0].target.value) if incs else None
+    # appended element: (channel id of the chosen index, pairing at the chosen channel's cursor) -- before the advance
+    apps = [s for s in loop.body if isinstance(s, ast.Expr) and isinstance(s.value, ast.Call) and call_method(s.value)[1] == "append"
+            and isinstance(call_method(s.value)[0], ast.Name) and call_method(s.value)[0].id == res]
+    tc = TypeCase(p, fi, set(), None)
+    exits = tc.run_body(loop.body)
+    rng = events_matching(exits, lambda e: e[0] == "append" and e[1] == res)
+    ctx.check(rng == (1, 1) and {k for k, _ in exits} == {"end"}, rule, f"{q}: one pairing emitted per round {rng}", function=q,
+              construct="a round of the interleaving does not emit exactly one pairing", message=f"{rng}", file=fi.file, node=loop)
+    if apps and incs:
+        ctx.check(apps[0].lineno < incs[0].lineno, rule, f"{q}: the pairing is taken before the cursor moves", function=q,
+                  construct="cursor advanced before the pairing is taken", message="", file=fi.file, node=apps[0])
+        nz = Normaliser()
+        nz.run_block([s for s in loop.body if isinstance(s, ast.Assign) and choice[0].lineno < s.lineno < apps[0].lineno])
+        a = apps[0].value.args[0]
+        ok = isinstance(a, ast.Tuple) and len(a.elts) == 2
+        if ok:
+            ch, pr = nz.norm(a.elts[0]).canon(), nz.norm(a.elts[1]).canon()
+            ok = ch.endswith(f"[{cidx}]") and f"[{cidx}]" in pr and cursor is not None and f"{cursor}[{cidx}]" in pr
+        ctx.check(ok, rule, f"{q}: emits (channel, pairing at that channel's cursor)", function=q,
+                  construct="emitted element is not (chosen channel, its pairing at the cursor)", message=short(a, 100), file=fi.file, node=apps[0])
+    # continuation: while any cursor is not exhausted
+    hv = loop.test.id if isinstance(loop.test, ast.Name) else None
+    upd = [s for s in loop.body if isinstance(s, ast.Assign) and isinstance(s.targets[0], ast.Name) and s.targets[0].id == hv]
+    ok = hv is not None and len(upd) == 1 and isinstance(upd[0].value, ast.Call) and isinstance(upd[0].value.func, ast.Name) and upd[0].value.func.id == "any" \
+        and "<" in src(upd[0].value)
+    ctx.check(ok, rule, f"{q}: continues while any channel has pairings left", function=q, construct="interleaving loop does not continue while any cursor is below its length",
+              message=f"{[short(s, 90) for s in upd]}", file=fi.file, node=loop)
